@@ -17,12 +17,15 @@ import (
 
 // KVCfg configures the KV adapter scenario (C15).
 type KVCfg struct {
-	Store string `json:"store"` // boltdb goleveldb gtreap moss metrics-gtreap metrics-boltdb
-	MO    string `json:"mo"`    // append | counter
+	Store string       `json:"store"`          // boltdb goleveldb gtreap moss metrics-gtreap metrics-boltdb
+	MO    string       `json:"mo"`             // append | counter
+	Conc  bool         `json:"conc,omitempty"` // clients are scheduler tasks: calls of different clients overlap (kvconc.go)
+	Sched sched.Config `json:"sched"`
 }
 
 // KVOp is one call of one logical client.
 type KVOp struct {
+	Ex  bool    `json:"ex,omitempty"`  // batch built with NewBatchEx into the buffer the store hands out, like upsidedown does
 	C   int     `json:"c"`             // client: 0 = writer, 1.. = readers
 	K   string  `json:"k"`             // batch | open | close | get | multiget | prefix | range | next | seek | cur | itclose
 	Ops []KVBOp `json:"ops,omitempty"` // batch
@@ -99,7 +102,8 @@ var kvStores = []string{"boltdb", "goleveldb", "gtreap", "moss", "metrics-gtreap
 
 func genKV(c *core.Ctx) (KVCfg, KVWL) {
 	g := c.Gen
-	cfg := KVCfg{Store: kvStores[g.Intn(len(kvStores))], MO: []string{"append", "counter"}[g.Intn(2)]}
+	cfg := KVCfg{Store: kvStores[g.Intn(len(kvStores))], MO: []string{"append", "counter"}[g.Intn(2)], Conc: g.Intn(5) < 2, Sched: genSchedCfg(g, false)}
+	cfg.Sched.TimeEvery = 0
 	nreaders := 1 + g.Intn(3)
 	n := 60 + g.Intn(120)
 	if c.Quick {
@@ -109,7 +113,7 @@ func genKV(c *core.Ctx) (KVCfg, KVWL) {
 	nk := len(kvKeys)
 	for i := 0; i < n; i++ {
 		if g.Intn(3) == 0 {
-			op := KVOp{C: 0, K: "batch"}
+			op := KVOp{C: 0, K: "batch", Ex: g.Intn(2) == 0}
 			used := map[int]bool{}
 			for j := 0; j < 1+g.Intn(10); j++ {
 				k := g.Intn(nk)
@@ -200,6 +204,10 @@ func kvScenario(c *core.Ctx) {
 	}
 	cfg = core.LoadOrGen(&c.Spec.Config, func() KVCfg { return cfg })
 	wl = core.LoadOrGen(&c.Spec.Workload, func() KVWL { return wl })
+	if cfg.Conc {
+		kvConcScenario(c, cfg, wl)
+		return
+	}
 	env := NewEnv(c, sched.Config{Policy: sched.PolUniform}, 1)
 	defer env.Finish()
 	sig := map[string]string{"store": cfg.Store}
@@ -276,25 +284,12 @@ func kvScenario(c *core.Ctx) {
 				viol("writer-error", "Writer(): %v", err)
 				break
 			}
-			b := w.NewBatch()
-			for _, bo := range op.Ops {
-				if bo.Key < 0 || bo.Key >= len(kvKeys) {
-					continue
-				}
-				k := kvKeys[bo.Key]
-				switch bo.T {
-				case "set":
-					b.Set(k, []byte(bo.Val))
-					m[string(k)] = []byte(bo.Val)
-				case "del":
-					b.Delete(k)
-					delete(m, string(k))
-				case "merge":
-					b.Merge(k, []byte(bo.Val))
-					nv, _ := mo.FullMerge(k, m[string(k)], [][]byte{[]byte(bo.Val)})
-					m[string(k)] = nv
-				}
+			b, err := buildKVBatch(w, op)
+			if err != nil {
+				viol("writer-error", "NewBatchEx: %v", err)
+				break
 			}
+			applyKVBatch(m, mo, op)
 			if err := w.ExecuteBatch(b); err != nil {
 				viol("writer-error", "ExecuteBatch: %v", err)
 				break
@@ -468,6 +463,93 @@ func kvScenario(c *core.Ctx) {
 	c.Res.Checks = checks
 	c.Res.NonTrivial = checks > 10 && c.Res.Probes["reader_used_after_later_writes"] > 0
 	c.Res.Summary = fmt.Sprintf("store=%s mo=%s ops=%d checks=%d", cfg.Store, cfg.MO, len(wl.Ops), checks)
+}
+
+// buildKVBatch builds the store batch of op; with op.Ex it goes through NewBatchEx and places keys and values in the
+// buffer the store hands out, the way upsidedown's batchRows does.
+func buildKVBatch(w store.KVWriter, op KVOp) (store.KVBatch, error) {
+	if !op.Ex {
+		b := w.NewBatch()
+		for _, bo := range op.Ops {
+			if bo.Key < 0 || bo.Key >= len(kvKeys) {
+				continue
+			}
+			k := kvKeys[bo.Key]
+			switch bo.T {
+			case "set":
+				b.Set(k, []byte(bo.Val))
+			case "del":
+				b.Delete(k)
+			case "merge":
+				b.Merge(k, []byte(bo.Val))
+			}
+		}
+		return b, nil
+	}
+	var opts store.KVBatchOptions
+	for _, bo := range op.Ops {
+		if bo.Key < 0 || bo.Key >= len(kvKeys) {
+			continue
+		}
+		kl, vl := len(kvKeys[bo.Key]), len(bo.Val)
+		switch bo.T {
+		case "set":
+			opts.NumSets++
+			opts.TotalBytes += kl + vl
+		case "del":
+			opts.NumDeletes++
+			opts.TotalBytes += kl
+		case "merge":
+			opts.NumMerges++
+			opts.TotalBytes += 2 * (kl + vl)
+		}
+	}
+	buf, b, err := w.NewBatchEx(opts)
+	if err != nil {
+		return nil, err
+	}
+	put := func(x []byte) []byte {
+		// like upsidedown: plain sub-slices of the store's buffer (moss locates them by their capacity)
+		n := copy(buf, x)
+		r := buf[:n]
+		buf = buf[n:]
+		return r
+	}
+	for _, bo := range op.Ops {
+		if bo.Key < 0 || bo.Key >= len(kvKeys) {
+			continue
+		}
+		switch bo.T {
+		case "set":
+			k := put(kvKeys[bo.Key])
+			b.Set(k, put([]byte(bo.Val)))
+		case "del":
+			b.Delete(put(kvKeys[bo.Key]))
+		case "merge":
+			k := put(kvKeys[bo.Key])
+			b.Merge(k, put([]byte(bo.Val)))
+		}
+	}
+	return b, nil
+}
+
+// applyKVBatch applies op to the ordered-map model.
+func applyKVBatch(m kvModel, mo store.MergeOperator, op KVOp) {
+	for _, bo := range op.Ops {
+		if bo.Key < 0 || bo.Key >= len(kvKeys) {
+			continue
+		}
+		k := kvKeys[bo.Key]
+		switch bo.T {
+		case "set":
+			m[string(k)] = []byte(bo.Val)
+		case "del":
+			delete(m, string(k))
+		case "merge":
+			nv, _ := mo.FullMerge(k, m[string(k)], [][]byte{[]byte(bo.Val)})
+			m[string(k)] = nv
+		}
+	}
 }
 
 func otherViolations(c *core.Ctx) int {
